@@ -1148,7 +1148,7 @@ def check_C16(tier_, sd, consts_ok, consts_detail):
     for k, t in enumerate(texts):
         t = [l for l in t if cls[l] == "D -"]
         r = rng.fork("u%d" % k)
-        if k % 80 == 7 and t:
+        if k % 80 == 7 and t and k < 80 * 40:
             # a very long FIRST line (around and beyond the 8 KiB read buffer): pass-through and the detected ending must not depend on it
             t = [(t[0] + " ") * (1 + [8100, 8192, 9000, 16400, 20000][(k // 80) % 5] // (len(t[0]) + 1))] + t[1:]
             if run_model(["D " + hx(t[0])])[0] != "D -": t = ["x" * 9000] + t[1:]
